@@ -848,6 +848,182 @@ def check_joints(rep, name, segs, stats):
                               % (T, val, name, da, db), rp, key='path-curvature-finite-at-kink')
 
 
+# ------------------------------------------- covariance under similarity transforms
+def detect_scale_variant():
+    """'control-points' when scaled() of a Bezier keeps coincident control points coincident (the
+    affine map is applied to the control points), 'power-basis' for the pinned detour through
+    bez2poly/poly2bez, which loses control2 == end to rounding"""
+    from svgpathtools import CubicBezier
+    try:
+        lost = 0
+        for sc_ in (0.3, 1.7, 0.7, 3.3):
+            c = CubicBezier(0j, 1 + 2j, 3 + 1j, 3 + 1j).scaled(sc_)
+            lost += (c.control2 != c.end)
+        return 'power-basis' if lost else 'control-points'
+    except Exception:
+        return 'undetermined'
+
+
+def true_dir(kind, params, seg, t):
+    """exact oracle of the direction of travel at t: derivative/|derivative|, at a zero of the
+    derivative its limit from inside [0,1] (first non-vanishing derivative, sign (-1)^(n-1) at
+    t = 1).  Returns (direction or None, singular, cusp) -- cusp: interior zero of odd order, where
+    the two one-sided limits differ and reversal cannot be judged"""
+    if kind == 'arc':
+        d = complex(seg.derivative(t))
+        return (d / abs(d) if d else None), False, False
+    for n in range(1, len(params)):
+        d = bez_deriv_exact(params, t, n)
+        if d != (0, 0):
+            u = fdir(d)
+            if n > 1 and t == 1 and n % 2 == 0:
+                u = -u
+            return u, n > 1, (n % 2 == 0 and 0 < t < 1)
+    return None, True, False
+
+
+def similarity_transforms(rng, sc, bezier):
+    """[(name, apply, tangent map, curvature factor, reverses)] -- base transforms"""
+    z0 = complex(rng.uniform(-3, 3), rng.uniform(-3, 3)) * sc
+    deg = rng.choice([90.0, 180.0, -90.0, 45.0, 30.0, rng.uniform(-180, 180)])
+    rot = cmath.exp(1j * math.radians(deg))
+    org = complex(rng.uniform(-2, 2), rng.uniform(-2, 2)) * sc
+    s1 = rng.choice([0.3, 1.7, 2.0, 0.5, 3.0, rng.uniform(0.1, 10)])
+    s2 = rng.choice([0.3, 1.7, 0.7, rng.uniform(0.1, 10)])
+    L = [('translated', lambda g: g.translated(z0), lambda u: u, 1.0, False),
+         ('rotated', lambda g: g.rotated(deg, origin=org), lambda u: u * rot, 1.0, False),
+         ('scaled(s>0)', lambda g: g.scaled(s1), lambda u: u, 1 / s1, False),
+         ('scaled(s>0,origin)', lambda g: g.scaled(s2, origin=org), lambda u: u, 1 / s2, False),
+         ('scaled(s<0)', lambda g: g.scaled(-s2), lambda u: -u, 1 / s2, False),
+         ('scaled(s<0,origin)', lambda g: g.scaled(-s1, origin=org), lambda u: -u, 1 / s1, False),
+         ('reversed', lambda g: g.reversed(), lambda u: u, 1.0, True)]
+    if bezier:      # reflections are similarities too: z -> s conj(z), z -> -s conj(z)
+        L += [('scaled(s,-s)', lambda g: g.scaled(s1, -s1), lambda u: u.conjugate(), 1 / s1, False),
+              ('scaled(-s,s,origin)', lambda g: g.scaled(-s2, s2, origin=org), lambda u: -u.conjugate(), 1 / s2, False)]
+    return L, {'z0': str(z0), 'deg': deg, 'origin': str(org), 's1': s1, 's2': s2}
+
+
+def compose(a, b):
+    return (a[0] + ' then ' + b[0], lambda g: b[1](a[1](g)), lambda u: b[2](a[2](u)), a[3] * b[3], a[4] != b[4])
+
+
+def check_covariance(rep, rng, kind, params, t, mode, stats):
+    seg = build(kind, params)
+    T0, singular, cusp = true_dir(kind, params, seg, t)
+    if T0 is None:
+        return
+    if singular and 0 < t < 1:
+        # an interior zero of the derivative exists through exact cancellation between the control
+        # points, not through coincident control points: no floating-point map of the control points
+        # preserves it (the image is a curve with a near-cusp there): not a covariance question
+        stats['cov_interior_singular_skipped'] += 1
+        return
+    if not singular and conditioning(kind, params, t) > 50:
+        stats['cov_ill_conditioned_skipped'] += 1
+        return
+    sc = scale_of(kind, params)
+    base, tparams = similarity_transforms(rng, sc, kind != 'arc')
+    chain = list(base)
+    for _ in range(4):
+        chain.append(compose(rng.choice(base), rng.choice(base)))
+    k0 = None
+    if not singular:
+        try: k0 = float(seg.curvature(t))
+        except Exception: k0 = None
+    stats['cov_cases'] += 1
+    from svgpathtools import Path, Line
+    for name, f, tmap, kfac, rev in chain:
+        if rev and cusp:
+            continue
+        ti = 1 - t if rev else t
+        E = tmap(T0) * (-1 if rev else 1)
+        rp = lambda extra=None: replay_of(kind, params, t, mode, dict({'stream': 'covariance', 'transform': name,
+                                                                       'transform_params': tparams}, **(extra or {})))
+        try:
+            img = f(seg)
+            got = complex(img.unit_tangent(ti))
+            nrm = complex(img.normal(ti))
+            kimg = float(img.curvature(ti)) if k0 is not None else None
+        except Exception as e:
+            rep.violation('C15: %s of the segment, then unit_tangent/normal/curvature(%r) raised %s'
+                          % (name, ti, type(e).__name__), rp({'error': repr(e)}), key='cov-raises')
+            continue
+        stats['cov_checks'] += 1
+        if not (finite(got) and abs(got - E) <= 1e-7):
+            key = 'cov-tangent'
+            what = ''
+            if singular and 'scaled' in name and kind in ('quad', 'cubic'):
+                ik = kind_of(img)
+                if ik in ('quad', 'cubic') and bez_deriv_exact(params_of(ik, img), ti, 1) != (0, 0):
+                    key = 'scaled-singular-bezier-tangent-from-noise'
+                    what = (' -- scaled() went through the power basis: the coincident control points of the original '
+                            'are no longer equal in the image (%r), so the derivative there is rounding noise'
+                            % (list(img.bpoints()),))
+            rep.violation('C15: %s: unit_tangent(%r) of the image = %r, expected the mapped direction of travel %r%s'
+                          % (name, ti, got, E, what), rp({'got': str(got), 'expected': str(E)}), key=key)
+            continue
+        if abs(nrm - (-1j) * got) > 1e-12:
+            rep.violation('C15: %s: normal of the image is not -1j*unit_tangent' % name, rp(), key='cov-normal')
+        if k0 is not None and kimg is not None:
+            if abs(kimg - k0 * kfac) > 1e-6 * (abs(k0) + 1 / sc) * kfac:
+                rep.violation('C15: %s: curvature(%r) of the image = %r, expected %r' % (name, ti, kimg, k0 * kfac),
+                              rp({'got': kimg, 'expected': k0 * kfac}), key='cov-curvature')
+    # Path level: the same segment inside a path, the transform applied to the path
+    pre = Line(seg.start - complex(1.5, 0.5) * sc, seg.start)
+    post = Line(seg.end, seg.end + complex(0.5, -1.25) * sc)
+    path = Path(pre, seg, post)
+    for name, f, tmap, kfac, rev in rng.sample(base, 4):
+        if rev and cusp:
+            continue
+        ti = 1 - t if rev else t
+        E = tmap(T0) * (-1 if rev else 1)
+        try:
+            ip = f(path)
+            Tm = ip.t2T(1, ti)
+            kk, tt = ip.T2t(Tm)
+            if kk != 1 or tt != ti:
+                stats['cov_path_unresolved'] += 1
+                continue
+            got = complex(ip.unit_tangent(Tm))
+            kimg = float(ip.curvature(Tm)) if (k0 is not None and 0.05 < ti < 0.95) else None
+        except Exception as e:
+            rep.violation('C15: Path.%s then Path.unit_tangent/curvature raised %s' % (name, type(e).__name__),
+                          replay_of(kind, params, t, mode, {'stream': 'covariance-path', 'transform': name,
+                                                            'transform_params': tparams, 'error': repr(e)}),
+                          key='cov-path-raises')
+            continue
+        stats['cov_path_checks'] += 1
+        if not (finite(got) and abs(got - E) <= 1e-7):
+            key = 'cov-path-tangent'
+            if singular and 'scaled' in name and kind in ('quad', 'cubic'):
+                ik = kind_of(ip[1])
+                if ik in ('quad', 'cubic') and bez_deriv_exact(params_of(ik, ip[1]), ti, 1) != (0, 0):
+                    key = 'scaled-singular-bezier-tangent-from-noise'
+            rep.violation('C15: Path.%s: Path.unit_tangent at the mapped T = %r, expected %r' % (name, got, E),
+                          replay_of(kind, params, t, mode, {'stream': 'covariance-path', 'transform': name,
+                                                            'transform_params': tparams, 'got': str(got), 'expected': str(E)}),
+                          key=key)
+        elif kimg is not None and abs(kimg - k0 * kfac) > 1e-6 * (abs(k0) + 1 / sc) * kfac:
+            rep.violation('C15: Path.%s: Path.curvature at the mapped T = %r, expected %r' % (name, kimg, k0 * kfac),
+                          replay_of(kind, params, t, mode, {'stream': 'covariance-path', 'transform': name,
+                                                            'transform_params': tparams}), key='cov-path-curvature')
+
+
+def covariance_stream(rng, n):
+    """segments of every kind including the singular ones (coincident first/last control points, 8
+    headings, exact and generic coordinates), t in {0, 1, interior dyadic grid}"""
+    grid = [0.0, 1.0, 0.0, 1.0, 0.25, 0.5, 0.75, 0.125, 0.875]
+    for i in range(n):
+        if i % 5 < 3:
+            kind, params, t, mode = gen_singular(rng, rng.randrange(10 ** 6))
+            if rng.random() < 0.3:
+                t = rng.choice(grid)
+        else:
+            kind, params, t, mode = gen_regular(rng)
+            t = rng.choice(grid)
+        yield kind, params, t, 'cov/' + mode
+
+
 def case_term(kind, params, t, o, pobs, singular=False, generic=False):
     seg = o['seg']
     (su, u, _), (sn, n, _), (sk, k, _) = o['ut'], o['nm'], o['k']
@@ -894,14 +1070,30 @@ def run(rep, tier, seed, replay=None):
         if info['agree_failed']:
             n_reg *= 4
         todo = []
-        jstats = {k: 0 for k in ('joint_paths', 'joint_evals', 'joint_smooth', 'joint_kink', 'joint_open_ends')}
+        jstats = {k: 0 for k in ('joint_paths', 'joint_evals', 'joint_smooth', 'joint_kink', 'joint_open_ends',
+                                 'cov_cases', 'cov_checks', 'cov_path_checks', 'cov_path_unresolved',
+                                 'cov_ill_conditioned_skipped', 'cov_interior_singular_skipped')}
+        rep.cov['variant_scale_bezier'] = detect_scale_variant()
         if replay and json.load(open(replay))['replay'].get('kind') == 'path-joint':
             r = json.load(open(replay))['replay']
             check_joints(rep, r.get('shape', 'replay'), segs_from_hex(r['segments']), jstats)
+        elif replay and json.load(open(replay))['replay'].get('stream', '').startswith('covariance'):
+            kind, params, t, mode = params_from_replay(json.load(open(replay))['replay'])
+            for rseed in range(8):      # the transform parameters are drawn: try several draws
+                check_covariance(rep, common.mkrng(seed, 'C15-cov-replay%d' % rseed), kind, params, t, mode, jstats)
         elif replay:
             r = json.load(open(replay))['replay']
             todo.append(params_from_replay(r))
         else:
+            crng = common.mkrng(seed, 'C15-covariance')
+            for kind, params, t, mode in covariance_stream(crng, 260 if tier == 'quick' else 2600):
+                try:
+                    check_covariance(rep, crng, kind, params, t, mode, jstats)
+                except Exception:
+                    import traceback
+                    rep.violation('C15: covariance check crashed', {'kind': 'harness-exception',
+                                                                    'traceback': traceback.format_exc()[-1500:]},
+                                  found_input=False, key='harness-exception')
             for name, segs in joint_paths(common.mkrng(seed, 'C15-joints'), 230 if tier == 'quick' else 2300):
                 jstats['joint_paths'] += 1
                 try:
@@ -988,7 +1180,9 @@ def run(rep, tier, seed, replay=None):
                            'control point 1e-12..1e-9 from an end point in 8 directions; distinct (segment, t) pairs counted; each case: 3 observations compared inside Coq with the model '
                            'in 120-bit floats (1e-9), the property on the implementation (modulus, quotient at t / t+-1e-6 with '
                            'sign, normal, curvature formula, circle 1/r), 5 transforms incl. scaled(1e-9), Path wrappers; Path.curvature at T=0, 1 and exactly on the joints of paths with '
-                           'smooth joints (split cubic/quad/arc, collinear lines, tangent line-curve, closed smooth loops) and kinks')
+                           'smooth joints (split cubic/quad/arc, collinear lines, tangent line-curve, closed smooth loops) and kinks; covariance stream: '
+                           'every kind incl. singular Beziers, t in {0,1,dyadic grid}: translated/rotated/scaled(s>0,s<0,+-origin)/reflections/reversed and '
+                           'compositions of two, segment and Path level, judged against the exact direction of travel of the original')
         stats.update(jstats)
         rep.cov['input_distribution'] = {'kinds': kinds, 'modes': modes, 'stats': stats}
         rep.cov['samples'] = [{'segment': str(m[4]['seg']), 't': m[2], 'unit_tangent': str(m[4]['ut'][1]),
